@@ -150,7 +150,7 @@ theorem step_lockInv (grow : Nat → Nat) (bodies : List (List MI)) (hb : ∀ b 
   | rdSnap t m rest hc =>
     have := inv.guard t; rw [hc] at this
     simp [guarded] at this
-    exact lockInv_same_held g t _ g rfl inv rfl (by simpa using this.2)
+    exact lockInv_same_held g t _ g rfl inv rfl (by simpa [takeSnap] using this.2)
   | retSnap t rest hc =>
     have := inv.guard t; rw [hc] at this
     simp [guarded] at this
